@@ -205,6 +205,27 @@ theorem HooksExact.toU (H : HooksExact P) (F : HooksNoRef P) : HooksU cx P where
   insertLocalVal := fun n v s => .single (.ofEq (H.insertLocalVal n v s) (fun D _ => F.insertLocalVal n v s D))
   insertLocalFn := H.insertLocalFn
 
+/-! ## A consumer's heap invariant: shape of the stability proof
+
+"the right table `b` is private and has no metatable": the three facts the consumer needs come from `Inj.ext`
+(frontier grows, new table pairs are fresh) and `Frame` (private tables untouched). -/
+namespace Demo.PrivateTable
+
+def icx (b : Nat) : HeapU.Cx where
+  I := fun _ β _ σ' => b < β.tR ∧ (∀ a, ¬ β.t a b) ∧ ∃ t, σ'.tables[b]? = some t ∧ t.mt = none
+  stable := fun _ β β' σ σ' s s' he hf hI => by
+    obtain ⟨h1, h2, t, h3, h4⟩ := hI
+    refine ⟨Nat.lt_of_lt_of_le h1 he.front.2.2.2.1, fun a ha => ?_, t, hf.tR b t h1 h2 h3, h4⟩
+    rcases he.freshT a b ha with h5 | h5
+    · exact h2 a h5
+    · omega
+
+/-- in every state pair related under this context the private table is still there, whatever code has run -/
+example {b : Nat} {Q : HeapU.QRel} {N : NumOps} {β : HeapU.Inj N} {σ σ' : State N}
+    (h : HeapU.SRel Q (icx b) β σ σ') : ∃ t, σ'.tables[b]? = some t ∧ t.mt = none := h.inv.2.2
+
+end Demo.PrivateTable
+
 /-! ## Worked instance: the `Demo.DropUnusedAlloc` pass again, through the unified development -/
 namespace Demo.DropUnusedAllocU
 open Demo.DropUnusedAlloc
